@@ -94,3 +94,25 @@ Proof. intro H. unfold serve_sequence. apply Permutation_map. exact H. Qed.
 Theorem serve_sequence_each c reqs r :
   In r reqs -> In (server_status (server_validate c (fst r) (snd r))) (serve_sequence c reqs).
 Proof. intro H. unfold serve_sequence. apply in_map_iff. exists r. auto. Qed.
+
+(* ---------------------------------------------------------------- the stored object *)
+
+(* what the handler stores is the report it validated: within the configuration, nothing else *)
+Theorem server_store_within u sem r s :
+  server_store (new_config u) sem r = Some s -> s = r /\ report_withinb u s = true.
+Proof.
+  unfold server_store. destruct (server_validate (new_config u) sem r) eqn:E; try discriminate.
+  intro H. injection H as <-. split; [reflexivity|].
+  apply server_validate_spec in E as [_ [_ [_ Hw]]]. apply forallb_within. exact Hw.
+Qed.
+
+(* the stored-object oracle accepts the model *)
+Theorem stored_check_model u sem r :
+  stored_check u (match server_validate (new_config u) sem r with VOk => true | _ => false end)
+               (server_store (new_config u) sem r) false = [].
+Proof.
+  unfold stored_check. destruct (server_store (new_config u) sem r) as [s|] eqn:Es.
+  - destruct (server_store_within u sem r s Es) as [-> Hw]. rewrite Hw.
+    unfold server_store in Es. destruct (server_validate (new_config u) sem r); try discriminate. reflexivity.
+  - unfold server_store in Es. destruct (server_validate (new_config u) sem r); try discriminate; reflexivity.
+Qed.
